@@ -302,6 +302,33 @@ def send_loop(rep, u):
     return len(paths)
 
 
+def completion_destination(rep, u):
+    """the completion (done) message goes to the thread that issued the broadcast: at every site that posts the completion
+    proxy, the destination argument of tpt_msg_send is the record's originator field (->tpt, directly or through a local that
+    was loaded from it) and the source argument is not"""
+    n = 0
+    for fn in u.function_list:
+        if not fn.has_cfg:
+            continue
+        orig_ids = core.result_locals(fn, field_suffix="tpt")
+        for pos, root, c, ps in fn.calls({"tpt_msg_send"}):
+            if len(c["args"]) < 5 or key(core.strip_casts(c["args"][3])) != "tpt_msg_cb_done_proxy_cb":
+                continue
+            n += 1
+            rep.functions.add(fn.name)
+
+            def is_orig(a):
+                a = core.strip_casts(a)
+                return (a.get("k") == "mem" and a.get("f") == "tpt" and a.get("rec") == REC) or (a.get("k") == "ref" and a.get("id") in orig_ids)
+            desc = "%s posts the completion to the originator of the broadcast (the record's ->tpt)" % fn.name
+            if is_orig(c["args"][0]) and not is_orig(c["args"][1]):
+                rep.proved("R-SIB", fn, "completion-destination", desc, "destination %s" % key(core.strip_casts(c["args"][0])), c.get("ln"))
+            else:
+                rep.violated("R-SIB", fn, "completion-destination", desc, "the destination argument is %s and the source argument %s: the completion callback runs "
+                             "on another thread than the one that asked for it" % (key(core.strip_casts(c["args"][0]))[:40], key(core.strip_casts(c["args"][1]))[:40]), c.get("ln"))
+    return n
+
+
 def completion(rep, u):
     n = 0
     # who references the completion proxy
@@ -469,6 +496,7 @@ def run(rep, tier):
     n3 = ownership(rep, u)
     n4 = send_loop(rep, u)
     n5 = completion(rep, u)
+    rep.floor("completion post sites", completion_destination(rep, u), 2)
     rep.floor("self-serving flag combinations", self_once(rep, u), 4)
     rep.floor("countdown accesses", n1, 6)
     rep.floor("countdown release sites", n2, 1)
